@@ -88,10 +88,16 @@ def clipf(lo, hi):
 
 
 # group keys / distinct keys: unequal values with EQUAL hashes in CPython (-1/-2, 0/2**61-1) plus a tuple and a float variant
+SHARED_NAN = float('nan')
 GKEYS = [-1, -2, ('a', -1), ('a', -2), 2 ** 61 - 1, 0, 'x']      # pairwise unequal; (-1,-2), the two tuples and (2**61-1, 0) hash alike
 
 
 def f_gkey(m):
+    if m == 4:
+        # group values None and NaN side by side.  The NaN is a FRESH object per call: it equals nothing, itself included, so
+        # every such item is a group of its own (a shared NaN object is found by identity in the implementation's dict and
+        # would make "equal by ==" ambiguous: not generated)
+        return lambda x: [None, float('nan'), -1, None][x % 4]
     return lambda x: GKEYS[x % m]
 
 
@@ -111,6 +117,8 @@ def twice(make):
 def splitf(kind, d):
     if kind == 'nonemod':       # a criterion that is None for some items (a missing field)
         return lambda x: None if x % d == 0 else x % d
+    if kind == 'nanmod':        # ONE shared NaN object as the criterion of many items: it differs from itself, every item is a run
+        return lambda x: SHARED_NAN if x % d == 0 else x % d
     if kind == 'gkey':          # consecutive ints map to unequal criteria with EQUAL hashes (-1 / -2, ('a',-1) / ('a',-2), 0 / 2**61-1)
         return lambda x: GKEYS[x % len(GKEYS)]
     return k_div(d) if kind == 'div' else f_mod(d)
